@@ -523,6 +523,18 @@ class Resolver:
                     cur = f.expr_of_def(ds[0])
                     continue
                 break
+            if cur[0] == 'call' and cur[1] in self.P.fns and self.P.fns[cur[1]].raw.get('output', '').startswith('std::vec::Vec<') and TS in self.P.fns[cur[1]].raw.get('output', ''):
+                # a helper that returns the vector of token streams: its (conditional) pushes, in the caller's terms
+                g = self.P.fns[cur[1]]
+                exs = [strip(x['expr']) for x in g.exits()]
+                if len(exs) == 1 and exs[0][0] == 'var':
+                    v = self._vec(g, exs[0][1], depth + 1)
+                    if v[1]:
+                        items = []
+                        for c_, toks in v[1]:
+                            items.append(((subst_args(c_[0], cur[2]), c_[1]) if c_ else None, toks))
+                        return {'kind': 'vec', 'vec': ('vec', items), 'base': cur, 'chain': chain}
+                break
             if cur[0] == 'call' and re.search(r'Option::<T>::map$', cur[1]) and len(cur[2]) == 2 and cur[2][1][0] == 'closure' and cur[2][1][1] in self.P.fns:
                 c = self.P.fns[cur[2][1][1]]
                 exs = [x for x in c.exits() if x['kind'] not in ('err_own', 'err_prop', 'none_prop')]
